@@ -6,9 +6,9 @@ Only definitions used in theorem statements; nothing here is executed by the ora
 -/
 import Uquic.Model.Wire.TransportParams
 
-namespace Uquic.Model.Wire.TP
+namespace Uquic.Model.Wire.TP.RT
 
-open Uquic.Model.Wire
+open Uquic.Model.Wire Uquic.Model.Wire.TP
 
 /-- the parameter ids `unmarshal` interprets (every other id is skipped) -/
 def isKnownID (id : Nat) : Bool :=
@@ -117,4 +117,14 @@ def itemsLen : List Item → Nat
   | .v x :: l => Varint.len x + itemsLen l
   | .raw b :: l => b.length + itemsLen l
 
-end Uquic.Model.Wire.TP
+/-- (for the non-vacuity examples) a server's parameters with every optional parameter present -/
+def exampleParams : Params :=
+  { initialMaxStreamDataBidiLocal := 524288, initialMaxStreamDataBidiRemote := 524288, initialMaxStreamDataUni := 2 ^ 62 - 1,
+    initialMaxData := 786432, maxAckDelay := 26000000, ackDelayExponent := 4, disableActiveMigration := true,
+    maxUDPPayloadSize := 1452, maxUniStreamNum := 100, maxBidiStreamNum := 2 ^ 60, maxIdleTimeout := 30000000000,
+    preferredAddress := some { v4 := some ([127, 0, 0, 1], 4433), v6 := none, connID := [1, 2, 3, 4], token := List.replicate 16 7 },
+    odcid := [9, 9, 9, 9, 9, 9, 9, 9], iscid := [], rscid := some [5, 6], srt := some (List.replicate 16 1),
+    activeConnectionIDLimit := 4, maxDatagramFrameSize := some 16383, enableResetStreamAt := true,
+    minAckDelay := some 1000000 }
+
+end Uquic.Model.Wire.TP.RT
